@@ -1072,3 +1072,93 @@ func checkOffsetProvenance(w *World, r *Report, reach map[*ssa.Function]bool) {
 	}
 	r.Counts["string cuts at offsets found by an index search"] = n
 }
+
+// checkNarrowBounds — R05.12: positions in input data are computed in int.  A slice bound or
+// index that is the result of an addition/subtraction/multiplication carried out in a fixed-width
+// unsigned type (uint8, uint16, uint32) with a non-constant operand can wrap around: `end :=
+// off + n; if end > uint32(len(data))` passes for n near 2^32, and data[off:end] panics with the
+// bounds crossed.  Obligation: every Slice/Index/IndexAddr bound of the package (after
+// conversions); such arithmetic must not feed it.
+func checkNarrowBounds(w *World, r *Report) {
+	narrow := func(t types.Type) bool {
+		b, ok := t.Underlying().(*types.Basic)
+		if !ok {
+			return false
+		}
+		switch b.Kind() {
+		case types.Uint8, types.Uint16, types.Uint32, types.Int8, types.Int16, types.Int32:
+			return true
+		}
+		return false
+	}
+	var wraps func(v ssa.Value, d int) string
+	wraps = func(v ssa.Value, d int) string {
+		if d > 6 {
+			return ""
+		}
+		switch x := v.(type) {
+		case *ssa.Convert:
+			return wraps(x.X, d+1)
+		case *ssa.ChangeType:
+			return wraps(x.X, d+1)
+		case *ssa.Phi:
+			for _, e := range x.Edges {
+				if e == ssa.Value(x) {
+					continue
+				}
+				if s := wraps(e, d+1); s != "" {
+					return s
+				}
+			}
+		case *ssa.UnOp:
+			if u := unspill(x); u != ssa.Value(x) {
+				return wraps(u, d+1)
+			}
+		case *ssa.BinOp:
+			switch x.Op {
+			case token.ADD, token.SUB, token.MUL, token.SHL:
+			default:
+				return ""
+			}
+			if !narrow(x.Type()) {
+				return ""
+			}
+			_, cx := x.X.(*ssa.Const)
+			_, cy := x.Y.(*ssa.Const)
+			if cx && cy {
+				return ""
+			}
+			return x.Type().String() + " " + x.Op.String()
+		}
+		return ""
+	}
+	n, bad := 0, 0
+	for _, fn := range w.pkgFuncs() {
+		instrsOf(fn, func(in ssa.Instruction) {
+			var bounds []ssa.Value
+			switch x := in.(type) {
+			case *ssa.Slice:
+				bounds = []ssa.Value{x.Low, x.High, x.Max}
+			case *ssa.Index:
+				bounds = []ssa.Value{x.Index}
+			case *ssa.IndexAddr:
+				bounds = []ssa.Value{x.Index}
+			default:
+				return
+			}
+			for _, b := range bounds {
+				if b == nil {
+					continue
+				}
+				n++
+				if how := wraps(b, 0); how != "" {
+					bad++
+					r.bad("R05.12", ssaName(fn), "bound computed in int, not in a narrower type", w.posOf(in.Pos()), "the bound of this slice/index expression comes out of "+how+" arithmetic with a non-constant operand: the sum wraps around for large operands (a length prefix near the top of the range), passes the range check that follows it, and the slice expression panics with crossed bounds")
+				}
+			}
+		})
+	}
+	if bad == 0 {
+		r.ok("R05.12", "(package)", "no slice or index bound is computed in a fixed-width narrow type", "-", fmt.Sprintf("%d bounds inspected", n), false)
+	}
+}
